@@ -234,7 +234,9 @@ PieceSync(r) ==
 
 (* domain of "parses on its own": parenthesisation not disabled (`pars=False` is documented as "can result in     *)
 (* invalid trees"), and the piece is not shorter than its kind allows (InvalidByDesign)                           *)
-ParseDomain(s, e) == e.opts.pars # "False" /\ ~BelowMin(s, e)
+(* `pars_arglike=False` likewise: "unparenthesized arglike-only expressions are invalid everywhere except in       *)
+(* Call.args, ClassDef.bases or an unparenthesized Subscript.slice Tuple" (options documentation)                 *)
+ParseDomain(s, e) == e.opts.pars # "False" /\ e.opts.parsArglike /\ ~BelowMin(s, e)
 
 (* an empty special container has nothing to parse: its source must hold no code                                  *)
 EmptySpecial(r) == r.kind \in Specials /\ ResElems(r.liveS, "", "") = <<>>
